@@ -754,7 +754,14 @@ def rw_R18(text, site, log):
     return text
 
 
-GLOBAL_REWRITES = [rw_R2, rw_R3, rw_R6, rw_R8, rw_R16, rw_R11, rw_R15, rw_R18]
+def rw_R22(text, site, log):
+    """closure parameter pattern `_` -> a named unused variable (Verus accepts only variable patterns there)"""
+    text, n = re.subn(r'\|_\|', '|_vunused|', text)
+    log.add('R22(closure parameter `_` -> named unused variable)', site, n)
+    return text
+
+
+GLOBAL_REWRITES = [rw_R2, rw_R3, rw_R6, rw_R8, rw_R16, rw_R11, rw_R15, rw_R18, rw_R22]
 
 
 # --------------------------------------------------------------------------- splicing
@@ -1021,6 +1028,17 @@ class Unit:
                 if r == 'R5':
                     text = rw_R5_any(text, site, self.log)
                     continue
+                if r == 'R20':
+                    text, n20 = re.subn(r'(\w+)\.to_string\(\)\s*==\s*"Out of space"', r'\1.v_is_out_of_space()', text)
+                    text, n20b = re.subn(r'(\w+)\.kind\(\)\s*==\s*std::io::ErrorKind::Other', r'v_kind_is_other(\1.kind())', text)
+                    text = text.replace('std::io::Error::other', 'IoError::other')
+                    text = re.sub(r'(?<![\w:])Ordering::(Relaxed|SeqCst)', r'atomic_ordering::Ordering::\1', text)
+                    self.log.add('R20(io::Error message/kind tests -> stand-in predicates)', site, n20 + n20b)
+                    continue
+                if r == 'R21':
+                    text, n21 = re.subn(r'&self\.event_map\[([^\]]*?)\.\.\]', r'self.event_map.v_slice_from(\1, Tracked(w))', text)
+                    self.log.add('R21(&MMAP[a..] (Deref<[u8]>) -> MMAP.v_slice_from(a, ghost world))', site, n21)
+                    continue
                 m17 = re.match(r'R17\((\w+)\)$', r)
                 if m17:
                     text = rw_R17(text, m17.group(1), site, self.log)
@@ -1062,7 +1080,7 @@ class Unit:
             # pre/postcondition alone (no loop contracts, no hints).  Otherwise the loss is reported (undecided).
             c2 = Contract(c.file, c.path, ret=c.ret, requires=c.requires, ensures=c.ensures, decreases=c.decreases,
                           ghostparams=c.ghostparams, ghostargs=c.ghostargs, attrs=c.attrs,
-                          rewrites=[r for r in c.rewrites if r in ('R5',) or r.startswith('R17')])
+                          rewrites=[r for r in c.rewrites if r in ('R5', 'R20', 'R21') or r.startswith('R17')])
             c2.ats = [a for a in c.ats if a[0] == 'fn_start' and 'let ghost' not in a[2]]
             text = self.apply_rewrites(raw, site, c2)
             _, loops = find_loops(split_fn(text)[1])
